@@ -455,6 +455,79 @@ func checkC13(c *Ctx) {
 	clientQueryWorlds(c, "R13b")
 	r.Rule("R13l", "route registration of a concrete four-method service: every variable a route's registration uses is assigned for that method beforehand (shared with C17/R17f) — a per-method assignment emitted only for some methods leaves a use without a declaration", 1)
 	c17RouteOwnHeaders(c, "R13l")
+	r.Rule("R13m", "codec units emitted for the concrete corpus files (partially annotated enums, nested messages, every annotation constant) contain no duplicate key in a map literal and no duplicate case in a switch — both are compile errors that only concrete descriptor values expose", 10)
+	corpusDuplicateKeys(c, "R13m")
+}
+
+// corpusDuplicateKeys — R13m. Symbolic exploration prints one placeholder per descriptor value, so two emitted map keys or
+// case labels that coincide only for some descriptors (the proto name of an enum value listed once as its own JSON form and
+// once as the fallback spelling) look different there. On the concrete corpus files the emitted text has real names: every
+// unit of both Go plugins is parsed, and constant keys of each map literal and constant labels of each switch must be distinct.
+func corpusDuplicateKeys(c *Ctx, rid string) {
+	r := c.R
+	for _, pkg := range []string{pkgHTTP, pkgClient} {
+		for _, ri := range c.goUnitRoots() {
+			if ri.Pkg != pkg {
+				continue
+			}
+			for _, cf := range corpusFor(ri.Suffix) {
+				units, pos, prob := c.runUnitConcrete(pkg, ri.Suffix, cf.File)
+				key := fmt.Sprintf("%s *%s on corpus file: %s", pkgShort(pkg), ri.Suffix, cf.Name)
+				if prob != "" {
+					r.Undec(rid, key, pos, prob)
+					continue
+				}
+				dups := []string{}
+				// map literals, line by line (one entry per emitted line; works also where an unescaped custom string keeps
+				// the unit from parsing — R13d's finding)
+				{
+					inMap := false
+					seen := map[string]bool{}
+					keyRe := regexp.MustCompile(`^("(?:[^"\\]|\\.)*"|[A-Za-z_][A-Za-z0-9_.]*): `)
+					for _, l := range unitLines(units) {
+						t := strings.TrimSpace(l)
+						switch {
+						case strings.Contains(t, "= map[") && strings.HasSuffix(t, "{"):
+							inMap, seen = true, map[string]bool{}
+						case inMap && t == "}":
+							inMap = false
+						case inMap:
+							if m := keyRe.FindStringSubmatch(t); m != nil {
+								if seen[m[1]] {
+									dups = append(dups, "duplicate key "+m[1]+" in map literal")
+								}
+								seen[m[1]] = true
+							}
+						}
+					}
+				}
+				for _, u := range units {
+					_, f, err := ParseUnit(u)
+					if err != nil {
+						continue // R13a / R14e report unparsable corpus units
+					}
+					ast.Inspect(f, func(n ast.Node) bool {
+						switch x := n.(type) {
+						case *ast.SwitchStmt:
+							seen := map[string]bool{}
+							for _, st := range x.Body.List {
+								for _, e := range st.(*ast.CaseClause).List {
+									if bl, ok := e.(*ast.BasicLit); ok {
+										if seen[bl.Value] {
+											dups = append(dups, "duplicate case "+bl.Value+" in switch")
+										}
+										seen[bl.Value] = true
+									}
+								}
+							}
+						}
+						return true
+					})
+				}
+				r.Check(len(dups) == 0, rid, key, pos, fmt.Sprintf("the file emitted for this concrete definition does not compile: %s", strings.Join(dedupeSorted(dups), "; ")))
+			}
+		}
+	}
 }
 
 // clientQueryWorlds — R13b for the Go client's URL builder. (sebuf.http.query) is accepted on a field of any kind and
